@@ -425,7 +425,9 @@ impl<'a> Trainer<'a> {
                 .labels()
                 .iter()
                 .position(|&cls| CharacterBoundary::WordBoundary as i32 == cls)
-                .unwrap(),
+                .ok_or_else(|| {
+                    VaporettoError::invalid_model("the training data contains no word boundary")
+                })?,
         )?;
 
         let bias = model.label_bias(wb_idx);
